@@ -7,9 +7,9 @@ out=seeded/RESULTS.txt
 for d in seeded/C*/; do
   s=$(basename $d)
   p=${s%%-*}
-  o=$(tools/mutcheck.sh /verif/seeded/$s/patch.diff -- bin/check $p --tier $tier 2>&1)
+  o=$(tools/mutcheck.sh /verif/seeded/$s/patch.diff -- bin/check $p --tier $tier 2>&1); rc=$?
   n=$(echo "$o" | grep -c '^VIOLATION')
   k=$(echo "$o" | grep 'key=' | grep -v KNOWN-FINDING | sed 's/.*key=\([^ ]*\).*/\1/' | sort | uniq -c | sort -rn | head -2 | awk '{printf "%s x%s  ", $2, $1}')
-  echo "$s $p[$tier] violations=$n :: $k" | tee -a $out.tmp
+  echo "$s $p[$tier] rc=$rc violations=$n :: $k" | tee -a $out.tmp
 done
 mv $out.tmp $out
